@@ -270,6 +270,16 @@ func (p LinearPacer) Pace(elapsed time.Duration, hits uint64) (time.Duration, bo
 		return 0, true
 	}
 
+	if p.Slope < 0 {
+		// With a negative slope the rate reaches zero after StartAt/|Slope|
+		// seconds, where the total of hits peaks at StartAt²/2|Slope|.
+		// A hit beyond that peak is never due, so stop the attack.
+		start := p.StartAt.hitsPerNs() * 1e9
+		if float64(hits)+1 > start*start/(2*-p.Slope) {
+			return 0, true
+		}
+	}
+
 	expectedHits := p.hits(elapsed)
 	if hits == 0 || hits < uint64(expectedHits) {
 		// Running behind, send next hit immediately.
